@@ -15,7 +15,9 @@ from common import REPO_ROOT, VERIF_ROOT, main_protocol
 ALPHABET = ["nop", "lda", "lda.w", "lda.", "#", "0x10", "12", "0b1", "0", "(", ")", "[", "]", ",x", ",", "x", "label:", "name", "name.sub", ":=", "=", "*=", "@=",
             "{", "}", "{{", "}}", ".macro", ".if", ".for", "else", ".scope", ".db", ".dw", ".text", ".ascii", ".table", ".include", ".incbin", ".map", ".struct",
             "'abc'", "'abc", "'", ";", "; c", "/*", "*/", "/* c */", "+", "-", "*", "&", "|", "~", "<<", ">>", "==", "!=", "<", ">", "\n", " ", "\t", "\0", "$", "\\", ".", "rts ; c",
-            "bra", "m(", "m()", "1,", "identifier=1", "bank_range=0,1", ".q", "byte"]
+            "bra", "m(", "m()", "1,", "identifier=1", "bank_range=0,1", ".q", "byte",
+            # characters outside ASCII: letters (str.isalpha), digits (str.isdigit / isnumeric), spaces (str.isspace), others
+            "\u00e9", "caf\u00e9", "\u03bb:", "\u00fc", "\u0661", "\u00b2", "\u00a0", "\u2028", "\u00a7", "\ufeff", "\U0001f600"]
 VALID = [
     "*=0x008000\nstart:\nlda #0x12\nsta.w 0x2100\n.macro m(a, b) {\n.db a, b\n}\nm(1, 2)\n{\nloop:\ndex\nbne loop\n}\nrts ; done\n",
     "*=0x008000\n.scope s {\nl:\nnop\n}\n.if 1 {\n.dw s.l\n} else {\n.db 0\n}\n.for i := 0, 3 {\n.db i\n}\n/* block\ncomment */\n.ascii 'text'\nlda (0x10),y\nlda [0x10],y\nlda (0x10,x)\nlda 0x10,x\n",
